@@ -37,6 +37,13 @@ Theorem C20_rank_transform_injective : forall l i j,
 Proof. exact ordinal_rank_injective. Qed.
 Print Assumptions C20_rank_transform_injective.
 
+(* ... and the sample the wrapped strategy ranked first in a step is forced to max + 1 beforehand: whatever the sign and
+   magnitude of the utilities (expected-error reductions are negative), it receives the highest rank of the row *)
+Theorem C20_forced_sample_gets_top_rank : forall (low : Z) (filled : list Z) (forced : nat),
+  (forced < length filled)%nat -> nth forced (ordinal_rank (bump low filled forced)) O = length filled.
+Proof. exact forced_sample_gets_top_rank. Qed.
+Print Assumptions C20_forced_sample_gets_top_rank.
+
 Example C20_nonvacuous :
   array_split [1; 2; 3; 4; 5; 6; 7] 3 = [[1; 2; 3]; [4; 5]; [6; 7]] /\
   sub_size (MFrac 1 2) 7 = 4%nat /\ ordinal_rank [5; 2; 5; 9] = [2%nat; 1%nat; 3%nat; 4%nat] /\
